@@ -81,6 +81,9 @@ where
         let comp = ci[s];
         let x = coord(pos, 0);
         let base = match c.profile {
+            // on periodic grids the profile has to be periodic itself (a liquid slab); a single interface would jump at the
+            // cell boundary and the ringing of its Fourier representation drives weighted densities negative
+            "tanh" if c.kind.starts_with("periodical") => 0.5 * (((x - 0.25 * lens[0]) / 3.0).tanh() - ((x - 0.75 * lens[0]) / 3.0).tanh()),
             "tanh" => 0.5 * (1.0 - ((x - 0.5 * lens[0]) / 3.0).tanh()),
             // even in x (zero slope at the origin), so that it is a smooth function in spherical / polar coordinates too
             _ => 0.5 + 0.4 * (x * 1.3).cos() * (-(x / (0.5 * lens[0])).powi(2)).exp(),
@@ -263,6 +266,6 @@ pub fn run(ctx: &mut Ctx) {
     }
     ctx.run(&cases, |c| format!("{}|{}|n={}|{}", c.f.id, c.kind, c.n, c.profile), case);
     ctx.extra("functionals", json!(fs.iter().map(|f| f.id.clone()).collect::<Vec<_>>()));
-    ctx.rule = "functionals x grids {Cartesian1, Spherical, Polar, Cartesian2, Cylindrical, Cartesian3} x base profiles {tanh interface, damped oscillation} x EVERY basis perturbation {segment} x {Gaussian bump centre on a K-point sub-grid away from the boundary}: (a) Richardson difference of the integrated Helmholtz energy density = integral(dF/drho bump); (b) adjointness <dphi/dn_alpha, n_alpha[bump]> = <dF/drho, bump> with first_partial_derivatives and the convolver's weighted densities (exact to 1e-9 on Cartesian grids; bounded by a per-geometry discretisation bound scaling with 1/n on curvilinear grids); (c) the Newton operator (hook H4) applied to the bump = Richardson difference of the functional derivative, and the variation of the bond integrals of chain molecules likewise".into();
+    ctx.rule = "functionals x grids {Cartesian1, Spherical, Polar, Cartesian2, Periodical2, Cylindrical, Cartesian3, Periodical3} x base profiles {tanh interface, damped oscillation} x EVERY basis perturbation {segment} x {Gaussian bump centre on a K-point sub-grid away from the boundary}: (a) Richardson difference of the integrated Helmholtz energy density = integral(dF/drho bump); (b) adjointness <dphi/dn_alpha, n_alpha[bump]> = <dF/drho, bump> with first_partial_derivatives and the convolver's weighted densities (exact to 1e-9 on Cartesian grids; bounded by a per-geometry discretisation bound scaling with 1/n on curvilinear grids); (c) the Newton operator (hook H4) applied to the bump = Richardson difference of the functional derivative, and the variation of the bond integrals of chain molecules likewise".into();
     ctx.assume("perturbations are smooth Gaussians of width 2 A at least 6 widths away from the outer boundary");
 }
